@@ -333,11 +333,29 @@ func (e *bEnv) FetchSourcePackage(ctx context.Context, sourceType string, u *url
 	return resp, fmt.Errorf("unknown package %s", addr)
 }
 
+var richContent = false
+
 // writeContent materialises a package: a marker file with the content id and one directory per
 // sub-path the world mentions for this content.
 func writeContent(w *BWorld, content, dir string) error {
 	if err := os.WriteFile(filepath.Join(dir, "content.id"), []byte(content), 0644); err != nil {
 		return err
+	}
+	if richContent {
+		// shapes that the re-open / archive round trip has to preserve
+		os.MkdirAll(filepath.Join(dir, "emptydir"), 0750)
+		os.MkdirAll(filepath.Join(dir, "k"), 0755)
+		os.WriteFile(filepath.Join(dir, "k", "exec.sh"), []byte("#!/bin/sh\n"), 0755)
+		os.WriteFile(filepath.Join(dir, "k", "secret"), []byte(content), 0600)
+		os.Symlink("../m/main.tf", filepath.Join(dir, "k", "link"))
+		os.WriteFile(filepath.Join(dir, "é x.tf"), []byte("é"), 0644)
+		if len(content) > 0 && content[len(content)-1]%2 == 0 {
+			// re-include a directory the built-in rules exclude
+			os.WriteFile(filepath.Join(dir, ".terraformignore"), []byte("!.terraform/\n"), 0644)
+			os.MkdirAll(filepath.Join(dir, ".terraform", "providers"), 0755)
+			os.WriteFile(filepath.Join(dir, ".terraform", "providers", "p"), []byte("provider"), 0644)
+			os.WriteFile(filepath.Join(dir, ".terraform", "lock.json"), []byte("{}"), 0644)
+		}
 	}
 	for _, sub := range []string{"m", "m/n", "k", "m/n/o", "a", "a/b"} {
 		d := filepath.Join(dir, filepath.FromSlash(sub))
